@@ -117,7 +117,7 @@ def _uf_limiter(ctx):
     return lambda r: np.exp(-np.asarray(r, dtype=float) ** 2)
 
 
-def tvd_units(ctx, g, dims, limiter, part=None):
+def tvd_units(ctx, g, dims, limiter, part=None, cube_timeout=20):
     """TVD correction scales by K/T; decided on the face basis (separability: tvd_separable), each obligation
     split into the sign cubes of the successive differences in its stencil and of the face velocity"""
     nd = len(dims)
@@ -158,11 +158,11 @@ def tvd_units(ctx, g, dims, limiter, part=None):
                 continue
             r = int(G[cc])
             ctx.eq('%s/%s/%s' % (tag, ops.fname(ax, fidx), '_'.join(map(str, cc))), r1[r], r0[r] * K / Tm,
-                   pre=pre, timeout=20, cubes=cubes)
+                   pre=pre, timeout=cube_timeout, cubes=cubes)
             if g == 'Grid1D' and fidx[ax] == 1 and cc == hi:
                 # without the threshold assumption: exact unit invariance fails (recorded finding)
                 ctx.eq('%s_nothreshold/%s/%s' % (tag, ops.fname(ax, fidx), '_'.join(map(str, cc))), r1[r], r0[r] * K / Tm,
-                       timeout=20, cubes=cubes)
+                       timeout=cube_timeout, cubes=cubes)
 
 
 def linearity(ctx, g, dims, term):
@@ -286,10 +286,13 @@ def scenarios(tier):
         for dims in TV[nd]:
             ds = 'x'.join(map(str, dims))
             nparts = {1: 1, 2: 3, 3: 6}[nd] if tier == 'quick' else {1: 2, 2: 6, 3: 12}[nd]
-            for lim in (('SUPERBEE',) if tier == 'quick' else ('SUPERBEE', 'VanLeer', 'CHARM')):
+            # VanLeer ((r+|r|)/(1+|r|), one more case split per ratio) stays undecided within the cube budget on the cylindrical
+            # grids: thorough runs it on the Cartesian classes only
+            lims = ('SUPERBEE',) if tier == 'quick' else (('SUPERBEE', 'CHARM', 'MinMod') + (('VanLeer',) if g.startswith('Grid') else ()))
+            for lim in lims:
                 for k in range(nparts):
                     T.append({'name': 'tvd_units/%s/%s/%s/part%d' % (g, ds, lim, k), 'fn': 'pv.props.c17:tvd_units',
-                              'params': {'g': g, 'dims': dims, 'limiter': lim, 'part': [k, nparts]}, 'timeout': 20, 'validate': 1, 'batch': 1})
+                              'params': {'g': g, 'dims': dims, 'limiter': lim, 'part': [k, nparts], 'cube_timeout': 20 if tier == 'quick' else 40}, 'timeout': 20 if tier == 'quick' else 40, 'validate': 1, 'batch': 1})
             T.append({'name': 'tvd_separable/%s/%s/UF' % (g, ds), 'fn': 'pv.props.c17:tvd_separable',
                       'params': {'g': g, 'dims': dims, 'limiter': 'UF'}, 'timeout': 60, 'validate': 1, 'batch': 1})
     T.sort(key=lambda t: -int(np.prod(t['params']['dims'])) - (100 if 'Spherical' in t['name'] else 0) - (50 if 'tvd' in t['name'] else 0))
